@@ -103,9 +103,10 @@ func siteCases() []siteCase {
 		}})
 	}
 
-	// Lists that hold contextual subtables only: the kind of the table (and
-	// with it the extension lookup type 7 or 9) follows from the lookup types.
-	for _, name := range []string{"gsub5_1", "gsub6_3", "gpos7_2", "gpos8_1"} {
+	// Lists that hold only contextual subtables (shared by GSUB and GPOS) or
+	// only pair adjustments (Gpos2_1 is used by value): the extension lookup
+	// type 7 or 9 must still be determined.
+	for _, name := range []string{"gsub5_1", "gsub6_3", "gpos7_2", "gpos8_1", "gpos2_1"} {
 		bc := lookups.FindBigClass(name)
 		n := (bc.Lo + bc.Hi) / 2
 		res = append(res, siteCase{"lookup-offsets-contextual-only:" + name, &infoCase{
